@@ -653,3 +653,1036 @@ MUTANTS += [
         ('wrappers/response.py', '        """\n        from ..exceptions import RequestedRangeNotSatisfiable\n\n        if (\n            not accept_ranges\n            or complete_length is None\n            or complete_length == 0\n            or not self._is_range_request_processable(environ)\n        ):\n            return False\n\n        if accept_ranges is True:\n            accept_ranges = "bytes"\n\n        parsed_range = parse_range_header(environ.get("HTTP_RANGE"))\n\n        if parsed_range is None:\n            raise RequestedRangeNotSatisfiable(complete_length)\n\n        range_tuple = parsed_range.range_for_length(complete_length)\n        content_range_header = parsed_range.to_content_range_header(complete_length)\n\n        if range_tuple is None or content_range_header is None:\n            raise RequestedRangeNotSatisfiable(complete_length)\n\n        content_length = range_tuple[1] - range_tuple[0]\n        self.headers["Content-Length"] = str(content_length)\n        self.headers["Accept-Ranges"] = accept_ranges\n        self.content_range = content_range_header  # type: ignore\n        self.status_code = 206\n        self._wrap_range_response(range_tuple[0], content_length)\n        return True\n\n    def make_conditional(\n', '        """\n        from ..exceptions import RequestedRangeNotSatisfiable\n\n        if not (\n            accept_ranges\n            and complete_length\n            and self._is_range_request_processable(environ)\n        ):\n            return False\n\n        parsed_range = parse_range_header(environ.get("HTTP_RANGE"))\n        range_tuple = content_range_header = None\n\n        if parsed_range is not None:\n            range_tuple = parsed_range.range_for_length(complete_length)\n            content_range_header = parsed_range.to_content_range_header(complete_length)\n\n        if range_tuple is None or content_range_header is None:\n            raise RequestedRangeNotSatisfiable(complete_length)\n\n        start = range_tuple[1]\n        content_length = range_tuple[1] - start\n        headers = self.headers\n        headers["Content-Length"] = str(content_length)\n        headers["Accept-Ranges"] = "bytes" if accept_ranges is True else accept_ranges\n        self.content_range = content_range_header  # type: ignore\n        self.status_code = 206\n        self._wrap_range_response(start, content_length)\n        return True\n\n    def make_conditional(\n'),
     ]},
 ]
+
+# ---------------------------------------------------------------------
+# R11.10 (parse_etags evaluated on well-formed entity-tag lists) / R11.11 (FileWrapper.seekable on stand-in files)
+_ETAG_RE = """_etag_re = re.compile(r'([Ww]/)?(?:"(.*?)"|(.*?))(?:\\s*,\\s*|$)')"""
+_PE_LOOP_HEAD = "    while pos < end:\n        match = _etag_re.match(value, pos)\n"
+_FW_SEEKABLE = (
+    "    def seekable(self) -> bool:\n"
+    '        if hasattr(self.file, "seekable"):\n'
+    "            return self.file.seekable()\n"
+    '        if hasattr(self.file, "seek"):\n'
+    "            return True\n"
+    "        return False\n"
+)
+_ETAGS_INIT = (
+    "        if not star_tag and strong_etags:\n"
+    "            self._strong = frozenset(strong_etags)\n"
+    "        else:\n"
+    "            self._strong = frozenset()\n"
+    "\n"
+    "        self._weak = frozenset(weak_etags or ())\n"
+)
+
+
+def _fw(body: str) -> list:
+    return [(WS, _FW_SEEKABLE, "    def seekable(self) -> bool:\n" + body)]
+
+
+MUTANTS += [
+    {"name": "etag-re-no-blank-before-comma", "expect": "R11.10", "edits": [(HT, _ETAG_RE, """_etag_re = re.compile(r'([Ww]/)?(?:"(.*?)"|(.*?))(?:,\\s*|$)')""")]},
+    {"name": "etag-re-no-blank-after-comma", "expect": "R11.10", "edits": [(HT, _ETAG_RE, """_etag_re = re.compile(r'([Ww]/)?(?:"(.*?)"|(.*?))(?:\\s*,|$)')""")]},
+    {"name": "etag-re-space-only-separator", "expect": "R11.10", "edits": [(HT, _ETAG_RE, """_etag_re = re.compile(r'([Ww]/)?(?:"(.*?)"|(.*?))(?: ?, ?|$)')""")]},
+    {"name": "etag-re-greedy-quoted-group", "expect": "R11.10", "edits": [(HT, _ETAG_RE, """_etag_re = re.compile(r'([Ww]/)?(?:"(.*)"|(.*?))(?:\\s*,\\s*|$)')""")]},
+    {"name": "etag-re-verbose-separator-class-too-narrow", "expect": "R11.10", "edits": [(HT, _ETAG_RE, '_etag_re = re.compile(\n    r"""\n    ([Ww]/)?              # weakness marker\n    (?:"(.*?)"|(.*?))     # quoted or raw tag\n    (?:[ ]*,[ \\t]*|$)     # separator\n    """,\n    re.VERBOSE,\n)')]},
+    {"name": "parse-etags-only-first-member", "expect": "R11.10", "edits": [(HT, _PE_LOOP_HEAD, "    while pos < end and not (strong or weak):\n        match = _etag_re.match(value, pos)\n")]},
+    {"name": "parse-etags-quoted-text-dropped", "expect": "R11.10", "edits": [(HT, "        elif quoted:\n            raw = quoted\n", "        elif quoted and is_weak:\n            raw = quoted\n")]},
+    {"name": "parse-etags-split-on-comma", "expect": "R11.10", "edits": [(HT, "        pos = match.end()\n", '        pos = value.find(",", pos) + 1 or end\n')]},
+    {"name": "etags-init-strong-dropped-polarity", "expect": "R11.10", "edits": [(ET, "        if not star_tag and strong_etags:\n", "        if star_tag and strong_etags:\n")]},
+    {"name": "etags-init-weak-kept-only-without-strong", "expect": "R11.10", "edits": [(ET, "        self._weak = frozenset(weak_etags or ())\n", "        self._weak = frozenset(() if strong_etags else weak_etags or ())\n")]},
+    # R11.11
+    {"name": "filewrapper-seekable-by-attribute-presence", "expect": "R11.11", "edits": _fw('        return hasattr(self.file, "seek") and hasattr(self.file, "tell")\n')},
+    {"name": "filewrapper-seekable-seek-attribute-first", "expect": "R11.11", "edits": _fw('        if hasattr(self.file, "seek"):\n            return True\n        if hasattr(self.file, "seekable"):\n            return self.file.seekable()\n        return False\n')},
+    {"name": "filewrapper-seekable-or-fallback", "expect": "R11.11", "edits": _fw('        file = self.file\n        answer = getattr(file, "seekable", None)\n        return bool(answer is not None and answer() or hasattr(file, "seek"))\n')},
+    {"name": "filewrapper-seekable-method-presence-not-called", "expect": "R11.11", "edits": _fw('        return callable(getattr(self.file, "seekable", None)) or hasattr(self.file, "seek")\n')},
+    {"name": "filewrapper-seekable-negated-answer", "expect": "R11.11", "edits": _fw('        try:\n            return not self.file.seekable()\n        except AttributeError:\n            return hasattr(self.file, "seek")\n')},
+]
+TWINS += [
+    {"name": "etag-re-explicit-whitespace-class", "edits": [(HT, _ETAG_RE, """_etag_re = re.compile(r'([Ww]/)?(?:"(.*?)"|(.*?))(?:[ \\t\\n\\r\\f\\v]*,[ \\t\\n\\r\\f\\v]*|$)')""")]},
+    {"name": "etag-re-alternatives-swapped", "edits": [(HT, _ETAG_RE, """_etag_re = re.compile(r'([Ww]/)?(?:"(.*?)"|(.*?))(?:$|\\s*,\\s*)')""")]},
+    {"name": "etag-re-verbose-layout", "edits": [(HT, _ETAG_RE, '_etag_re = re.compile(\n    r"""\n    ([Ww]/)?              # weakness marker\n    (?:"(.*?)"|(.*?))     # quoted or raw tag\n    (?:\\s*,\\s*|$)         # separator\n    """,\n    re.VERBOSE,\n)')]},
+    {"name": "etag-re-built-from-pieces", "edits": [(HT, _ETAG_RE, '_etag_sep = r"(?:\\s*,\\s*|$)"\n_etag_re = re.compile(r\'([Ww]/)?(?:"(.*?)"|(.*?))\' + _etag_sep)')]},
+    {"name": "etags-init-conditional-expressions", "edits": [(ET, _ETAGS_INIT, "        self._weak = frozenset(weak_etags) if weak_etags else frozenset()\n        self._strong = frozenset() if star_tag or not strong_etags else frozenset(strong_etags)\n")]},
+    {"name": "filewrapper-seekable-getattr-default", "edits": _fw('        answer = getattr(self.file, "seekable", None)\n        if answer is not None:\n            return answer()\n        return hasattr(self.file, "seek")\n')},
+    {"name": "filewrapper-seekable-try-except", "edits": _fw('        file = self.file\n        try:\n            probe = file.seekable\n        except AttributeError:\n            return hasattr(file, "seek")\n        return probe()\n')},
+    {"name": "filewrapper-seekable-conditional-expression", "edits": _fw('        return self.file.seekable() if hasattr(self.file, "seekable") else hasattr(self.file, "seek")\n')},
+    {"name": "filewrapper-seekable-private-helper", "edits": _fw('        return self._file_can_seek(self.file)\n\n    @staticmethod\n    def _file_can_seek(file: t.Any) -> bool:\n        if not hasattr(file, "seekable"):\n            return hasattr(file, "seek")\n        return file.seekable()\n')},
+]
+
+# ---------------------------------------------------------------------
+# detection round 3: fresh maintainer-style refactorings of parse_etags / _etag_re / ETags / FileWrapper (all neutral),
+# and a defect in each new shape
+TWINS += [{'edits': [('http.py',
+             '_token_chars = frozenset(\n'
+             '    "!#$%&\'*+-.0123456789ABCDEFGHIJKLMNOPQRSTUVWXYZ^_`abcdefghijklmnopqrstuvwxyz|~"\n'
+             ')\n'
+             '_etag_re = re.compile(r\'([Ww]/)?(?:"(.*?)"|(.*?))(?:\\s*,\\s*|$)\')\n'
+             '_entity_headers = frozenset(\n'
+             '    [\n'
+             '        "allow",\n',
+             '_token_chars = frozenset(\n'
+             '    "!#$%&\'*+-.0123456789ABCDEFGHIJKLMNOPQRSTUVWXYZ^_`abcdefghijklmnopqrstuvwxyz|~"\n'
+             ')\n'
+             '_etag_re = re.compile(\n'
+             '    r"""\n'
+             '    ([Ww]/)?            # optional weakness indicator\n'
+             '    (?:\n'
+             '        "(.*?)"         # quoted opaque tag\n'
+             '    |\n'
+             '        (.*?)           # bare value, also catches "*"\n'
+             '    )\n'
+             '    (?:\\s*,\\s*|$)       # list separator or end of the header\n'
+             '    """,\n'
+             '    flags=re.VERBOSE,\n'
+             ')\n'
+             '_entity_headers = frozenset(\n'
+             '    [\n'
+             '        "allow",\n')],
+  'name': 'detect3-etag-re-verbose-flags-keyword'},
+ {'edits': [('http.py',
+             '_token_chars = frozenset(\n'
+             '    "!#$%&\'*+-.0123456789ABCDEFGHIJKLMNOPQRSTUVWXYZ^_`abcdefghijklmnopqrstuvwxyz|~"\n'
+             ')\n'
+             '_etag_re = re.compile(r\'([Ww]/)?(?:"(.*?)"|(.*?))(?:\\s*,\\s*|$)\')\n'
+             '_entity_headers = frozenset(\n'
+             '    [\n'
+             '        "allow",\n',
+             '_token_chars = frozenset(\n'
+             '    "!#$%&\'*+-.0123456789ABCDEFGHIJKLMNOPQRSTUVWXYZ^_`abcdefghijklmnopqrstuvwxyz|~"\n'
+             ')\n'
+             '_etag_re = re.compile(\n'
+             '    r\'(?P<weak>[Ww]/)?(?:"(?P<quoted>.*?)"|(?P<raw>.*?))(?:\\s*,\\s*|$)\'\n'
+             ')\n'
+             '_entity_headers = frozenset(\n'
+             '    [\n'
+             '        "allow",\n'),
+            ('http.py',
+             '        match = _etag_re.match(value, pos)\n'
+             '        if match is None:\n'
+             '            break\n'
+             '        is_weak, quoted, raw = match.groups()\n'
+             '        if raw == "*":\n'
+             '            return ds.ETags(star_tag=True)\n'
+             '        elif quoted:\n'
+             '            raw = quoted\n'
+             '        if is_weak:\n'
+             '            weak.append(raw)\n'
+             '        else:\n'
+             '            strong.append(raw)\n',
+             '        match = _etag_re.match(value, pos)\n'
+             '        if match is None:\n'
+             '            break\n'
+             '        raw = match.group("raw")\n'
+             '        if raw == "*":\n'
+             '            return ds.ETags(star_tag=True)\n'
+             '        quoted = match.group("quoted")\n'
+             '        if quoted:\n'
+             '            raw = quoted\n'
+             '        if match.group("weak"):\n'
+             '            weak.append(raw)\n'
+             '        else:\n'
+             '            strong.append(raw)\n')],
+  'name': 'detect3-parse-etags-named-groups'},
+ {'edits': [('http.py',
+             '_token_chars = frozenset(\n'
+             '    "!#$%&\'*+-.0123456789ABCDEFGHIJKLMNOPQRSTUVWXYZ^_`abcdefghijklmnopqrstuvwxyz|~"\n'
+             ')\n'
+             '_etag_re = re.compile(r\'([Ww]/)?(?:"(.*?)"|(.*?))(?:\\s*,\\s*|$)\')\n'
+             '_entity_headers = frozenset(\n'
+             '    [\n'
+             '        "allow",\n',
+             '_token_chars = frozenset(\n'
+             '    "!#$%&\'*+-.0123456789ABCDEFGHIJKLMNOPQRSTUVWXYZ^_`abcdefghijklmnopqrstuvwxyz|~"\n'
+             ')\n'
+             '_etag_weak_prefix = r"(?:W|w)/"\n'
+             '_etag_quoted = r\'"(.*?)"\'\n'
+             '_etag_bare = r"(.*?)"\n'
+             '_etag_list_sep = r"\\s*,\\s*"\n'
+             '_etag_re = re.compile(\n'
+             '    f"({_etag_weak_prefix})?"\n'
+             '    f"(?:{_etag_quoted}|{_etag_bare})"\n'
+             '    f"(?:{_etag_list_sep}|$)"\n'
+             ')\n'
+             '_entity_headers = frozenset(\n'
+             '    [\n'
+             '        "allow",\n')],
+  'name': 'detect3-etag-re-fstring-pieces'},
+ {'edits': [('http.py',
+             '_token_chars = frozenset(\n'
+             '    "!#$%&\'*+-.0123456789ABCDEFGHIJKLMNOPQRSTUVWXYZ^_`abcdefghijklmnopqrstuvwxyz|~"\n'
+             ')\n'
+             '_etag_re = re.compile(r\'([Ww]/)?(?:"(.*?)"|(.*?))(?:\\s*,\\s*|$)\')\n'
+             '_entity_headers = frozenset(\n'
+             '    [\n'
+             '        "allow",\n',
+             '_token_chars = frozenset(\n'
+             '    "!#$%&\'*+-.0123456789ABCDEFGHIJKLMNOPQRSTUVWXYZ^_`abcdefghijklmnopqrstuvwxyz|~"\n'
+             ')\n'
+             '_etag_re = re.compile(\n'
+             '    r"([wW]/)?"  # weak marker\n'
+             '    r\'(?:"([^\\n]*?)"|([^\\n]*?))\'  # quoted tag, or anything else\n'
+             '    r"(?:$|[\\s]*,[\\s]*)"  # end of header, or separator\n'
+             ')\n'
+             '_entity_headers = frozenset(\n'
+             '    [\n'
+             '        "allow",\n')],
+  'name': 'detect3-etag-re-negated-newline-class'},
+ {'edits': [('http.py',
+             '    return etag, weak\n\n\ndef parse_etags(value: str | None) -> ds.ETags:\n    """Parse an etag header.\n\n',
+             '    return etag, weak\n'
+             '\n'
+             '\n'
+             'def _iter_etag_items(\n'
+             '    value: str,\n'
+             ') -> t.Iterator[tuple[str | None, str | None, str | None]]:\n'
+             '    """Yield ``(weak_marker, quoted, raw)`` for each item of an etag list,\n'
+             "    stopping at the first position that can't be parsed.\n"
+             '    """\n'
+             '    end = len(value)\n'
+             '    pos = 0\n'
+             '    while pos < end:\n'
+             '        match = _etag_re.match(value, pos)\n'
+             '        if match is None:\n'
+             '            return\n'
+             '        yield match.groups()\n'
+             '        pos = match.end()\n'
+             '\n'
+             '\n'
+             'def parse_etags(value: str | None) -> ds.ETags:\n'
+             '    """Parse an etag header.\n'
+             '\n'),
+            ('http.py',
+             '        return ds.ETags()\n'
+             '    strong = []\n'
+             '    weak = []\n'
+             '    end = len(value)\n'
+             '    pos = 0\n'
+             '    while pos < end:\n'
+             '        match = _etag_re.match(value, pos)\n'
+             '        if match is None:\n'
+             '            break\n'
+             '        is_weak, quoted, raw = match.groups()\n'
+             '        if raw == "*":\n'
+             '            return ds.ETags(star_tag=True)\n'
+             '        elif quoted:\n',
+             '        return ds.ETags()\n'
+             '    strong = []\n'
+             '    weak = []\n'
+             '    for is_weak, quoted, raw in _iter_etag_items(value):\n'
+             '        if raw == "*":\n'
+             '            return ds.ETags(star_tag=True)\n'
+             '        elif quoted:\n'),
+            ('http.py',
+             '            weak.append(raw)\n        else:\n            strong.append(raw)\n        pos = match.end()\n    return ds.ETags(strong, weak)\n\n\n',
+             '            weak.append(raw)\n        else:\n            strong.append(raw)\n    return ds.ETags(strong, weak)\n\n\n')],
+  'name': 'detect3-parse-etags-generator-of-groups'},
+ {'edits': [('http.py',
+             '    """\n'
+             '    if not value:\n'
+             '        return ds.ETags()\n'
+             '    strong = []\n'
+             '    weak = []\n'
+             '    end = len(value)\n'
+             '    pos = 0\n'
+             '    while pos < end:\n'
+             '        match = _etag_re.match(value, pos)\n'
+             '        if match is None:\n'
+             '            break\n'
+             '        is_weak, quoted, raw = match.groups()\n'
+             '        if raw == "*":\n'
+             '            return ds.ETags(star_tag=True)\n'
+             '        elif quoted:\n'
+             '            raw = quoted\n'
+             '        if is_weak:\n'
+             '            weak.append(raw)\n'
+             '        else:\n'
+             '            strong.append(raw)\n'
+             '        pos = match.end()\n'
+             '    return ds.ETags(strong, weak)\n'
+             '\n'
+             '\n'
+             'def generate_etag(data: bytes) -> str:\n',
+             '    """\n'
+             '    if not value:\n'
+             '        return ds.ETags()\n'
+             '    strong_tags = []\n'
+             '    weak_tags = []\n'
+             '    offset = 0\n'
+             '    length = len(value)\n'
+             '    while offset < length:\n'
+             '        m = _etag_re.match(value, offset)\n'
+             '        if m is None:\n'
+             '            break\n'
+             '        offset = m.end()\n'
+             '        # 1: weak marker, 2: quoted tag, 3: unquoted value\n'
+             '        if m[3] == "*":\n'
+             '            return ds.ETags(star_tag=True)\n'
+             '        tag = m[2] if m[2] else m[3]\n'
+             '        if not m[1]:\n'
+             '            strong_tags.append(tag)\n'
+             '        else:\n'
+             '            weak_tags.append(tag)\n'
+             '    return ds.ETags(strong_tags, weak_tags)\n'
+             '\n'
+             '\n'
+             'def generate_etag(data: bytes) -> str:\n')],
+  'name': 'detect3-parse-etags-match-subscripts'},
+ {'edits': [('http.py',
+             '    """\n'
+             '    if not value:\n'
+             '        return ds.ETags()\n'
+             '    strong = []\n'
+             '    weak = []\n'
+             '    end = len(value)\n'
+             '    pos = 0\n'
+             '    while pos < end:\n'
+             '        match = _etag_re.match(value, pos)\n'
+             '        if match is None:\n'
+             '            break\n'
+             '        is_weak, quoted, raw = match.groups()\n'
+             '        if raw == "*":\n'
+             '            return ds.ETags(star_tag=True)\n'
+             '        elif quoted:\n'
+             '            raw = quoted\n'
+             '        if is_weak:\n'
+             '            weak.append(raw)\n'
+             '        else:\n'
+             '            strong.append(raw)\n'
+             '        pos = match.end()\n'
+             '    return ds.ETags(strong, weak)\n'
+             '\n',
+             '    """\n'
+             '    if not value:\n'
+             '        return ds.ETags()\n'
+             '    strong: list[str | None] = []\n'
+             '    weak: list[str | None] = []\n'
+             '    match_at = _etag_re.match\n'
+             '    pos, end = 0, len(value)\n'
+             '    while pos < end and (match := match_at(value, pos)) is not None:\n'
+             '        is_weak, quoted, raw = match.groups()\n'
+             '        if raw == "*":\n'
+             '            return ds.ETags(star_tag=True)\n'
+             '        tags = weak if is_weak else strong\n'
+             '        tags.append(quoted or raw)\n'
+             '        pos = match.end()\n'
+             '    return ds.ETags(strong, weak)\n'
+             '\n')],
+  'name': 'detect3-parse-etags-bound-match-walrus-loop'},
+ {'edits': [('datastructures/etag.py',
+             '        weak_etags: cabc.Iterable[str] | None = None,\n'
+             '        star_tag: bool = False,\n'
+             '    ):\n'
+             '        if not star_tag and strong_etags:\n'
+             '            self._strong = frozenset(strong_etags)\n'
+             '        else:\n'
+             '            self._strong = frozenset()\n'
+             '\n'
+             '        self._weak = frozenset(weak_etags or ())\n'
+             '        self.star_tag = star_tag\n'
+             '\n'
+             '    def as_set(self, include_weak: bool = False) -> set[str]:\n'
+             '        """Convert the `ETags` object into a python set.  Per default all the\n',
+             '        weak_etags: cabc.Iterable[str] | None = None,\n'
+             '        star_tag: bool = False,\n'
+             '    ):\n'
+             '        self.star_tag = star_tag\n'
+             '        self._strong = (\n'
+             '            frozenset(strong_etags) if not star_tag and strong_etags else frozenset()\n'
+             '        )\n'
+             '\n'
+             '        if weak_etags:\n'
+             '            self._weak = frozenset(weak_etags)\n'
+             '        else:\n'
+             '            self._weak = frozenset()\n'
+             '\n'
+             '    def as_set(self, include_weak: bool = False) -> set[str]:\n'
+             '        """Convert the `ETags` object into a python set.  Per default all the\n'),
+            ('datastructures/etag.py',
+             '\n'
+             '    def contains_weak(self, etag: str) -> bool:\n'
+             '        """Check if an etag is part of the set including weak and strong tags."""\n'
+             '        return self.is_weak(etag) or self.contains(etag)\n'
+             '\n'
+             '    def contains(self, etag: str) -> bool:\n'
+             '        """Check if an etag is part of the set ignoring weak tags.\n'
+             '        It is also possible to use the ``in`` operator.\n'
+             '        """\n'
+             '        if self.star_tag:\n'
+             '            return True\n'
+             '        return self.is_strong(etag)\n'
+             '\n'
+             '    def contains_raw(self, etag: str) -> bool:\n'
+             '        """When passed a quoted tag it will check if this tag is part of the\n',
+             '\n'
+             '    def contains_weak(self, etag: str) -> bool:\n'
+             '        """Check if an etag is part of the set including weak and strong tags."""\n'
+             '        if weak := self.is_weak(etag):\n'
+             '            return weak\n'
+             '        return self.contains(etag)\n'
+             '\n'
+             '    def contains(self, etag: str) -> bool:\n'
+             '        """Check if an etag is part of the set ignoring weak tags.\n'
+             '        It is also possible to use the ``in`` operator.\n'
+             '        """\n'
+             '        return True if self.star_tag else self.is_strong(etag)\n'
+             '\n'
+             '    def contains_raw(self, etag: str) -> bool:\n'
+             '        """When passed a quoted tag it will check if this tag is part of the\n')],
+  'name': 'detect3-etags-walrus-and-conditional-expressions'},
+ {'edits': [('datastructures/etag.py',
+             'import collections.abc as cabc\n\n\nclass ETags(cabc.Collection[str]):\n    """A set that can be used to check if one etag is present in a collection\n    of etags.\n',
+             'import collections.abc as cabc\n'
+             '\n'
+             '\n'
+             'def _freeze(etags: cabc.Iterable[str] | None) -> frozenset[str]:\n'
+             '    if not etags:\n'
+             '        return frozenset()\n'
+             '    return frozenset(etags)\n'
+             '\n'
+             '\n'
+             'class ETags(cabc.Collection[str]):\n'
+             '    """A set that can be used to check if one etag is present in a collection\n'
+             '    of etags.\n'),
+            ('datastructures/etag.py',
+             '        weak_etags: cabc.Iterable[str] | None = None,\n'
+             '        star_tag: bool = False,\n'
+             '    ):\n'
+             '        if not star_tag and strong_etags:\n'
+             '            self._strong = frozenset(strong_etags)\n'
+             '        else:\n'
+             '            self._strong = frozenset()\n'
+             '\n'
+             '        self._weak = frozenset(weak_etags or ())\n'
+             '        self.star_tag = star_tag\n'
+             '\n'
+             '    def as_set(self, include_weak: bool = False) -> set[str]:\n',
+             '        weak_etags: cabc.Iterable[str] | None = None,\n'
+             '        star_tag: bool = False,\n'
+             '    ):\n'
+             '        # A star tag matches everything, individual strong tags are dropped.\n'
+             '        self._strong = _freeze(None if star_tag else strong_etags)\n'
+             '        self._weak = _freeze(weak_etags)\n'
+             '        self.star_tag = star_tag\n'
+             '\n'
+             '    def as_set(self, include_weak: bool = False) -> set[str]:\n'),
+            ('datastructures/etag.py',
+             '        """Check if an etag is part of the set ignoring weak tags.\n'
+             '        It is also possible to use the ``in`` operator.\n'
+             '        """\n'
+             '        if self.star_tag:\n'
+             '            return True\n'
+             '        return self.is_strong(etag)\n'
+             '\n'
+             '    def contains_raw(self, etag: str) -> bool:\n'
+             '        """When passed a quoted tag it will check if this tag is part of the\n',
+             '        """Check if an etag is part of the set ignoring weak tags.\n'
+             '        It is also possible to use the ``in`` operator.\n'
+             '        """\n'
+             '        return bool(self.star_tag) or self.is_strong(etag)\n'
+             '\n'
+             '    def contains_raw(self, etag: str) -> bool:\n'
+             '        """When passed a quoted tag it will check if this tag is part of the\n')],
+  'name': 'detect3-etags-freeze-helper'},
+ {'edits': [('datastructures/etag.py',
+             '        star_tag: bool = False,\n'
+             '    ):\n'
+             '        if not star_tag and strong_etags:\n'
+             '            self._strong = frozenset(strong_etags)\n'
+             '        else:\n'
+             '            self._strong = frozenset()\n'
+             '\n'
+             '        self._weak = frozenset(weak_etags or ())\n'
+             '        self.star_tag = star_tag\n'
+             '\n'
+             '    def as_set(self, include_weak: bool = False) -> set[str]:\n'
+             '        """Convert the `ETags` object into a python set.  Per default all the\n'
+             '        weak etags are not part of this set."""\n',
+             '        star_tag: bool = False,\n'
+             '    ):\n'
+             '        if not star_tag and strong_etags:\n'
+             '            strong = frozenset(strong_etags)\n'
+             '        else:\n'
+             '            strong = frozenset()\n'
+             '\n'
+             '        weak = frozenset(weak_etags or ())\n'
+             '        #: The stored tags as a ``(strong, weak)`` pair.\n'
+             '        self._tags: tuple[frozenset[str], frozenset[str]] = (strong, weak)\n'
+             '        self.star_tag = star_tag\n'
+             '\n'
+             '    @property\n'
+             '    def _strong(self) -> frozenset[str]:\n'
+             '        return self._tags[0]\n'
+             '\n'
+             '    @property\n'
+             '    def _weak(self) -> frozenset[str]:\n'
+             '        return self._tags[1]\n'
+             '\n'
+             '    def as_set(self, include_weak: bool = False) -> set[str]:\n'
+             '        """Convert the `ETags` object into a python set.  Per default all the\n'
+             '        weak etags are not part of this set."""\n'),
+            ('datastructures/etag.py',
+             '\n'
+             '    def is_weak(self, etag: str) -> bool:\n'
+             '        """Check if an etag is weak."""\n'
+             '        return etag in self._weak\n'
+             '\n'
+             '    def is_strong(self, etag: str) -> bool:\n'
+             '        """Check if an etag is strong."""\n'
+             '        return etag in self._strong\n'
+             '\n'
+             '    def contains_weak(self, etag: str) -> bool:\n'
+             '        """Check if an etag is part of the set including weak and strong tags."""\n',
+             '\n'
+             '    def is_weak(self, etag: str) -> bool:\n'
+             '        """Check if an etag is weak."""\n'
+             '        _, weak = self._tags\n'
+             '        return etag in weak\n'
+             '\n'
+             '    def is_strong(self, etag: str) -> bool:\n'
+             '        """Check if an etag is strong."""\n'
+             '        strong, _ = self._tags\n'
+             '        return etag in strong\n'
+             '\n'
+             '    def contains_weak(self, etag: str) -> bool:\n'
+             '        """Check if an etag is part of the set including weak and strong tags."""\n')],
+  'name': 'detect3-etags-pair-representation'},
+ {'edits': [('wsgi.py',
+             'from functools import partial\n'
+             'from functools import update_wrapper\n'
+             '\n'
+             'from .exceptions import ClientDisconnected\n'
+             'from .exceptions import RequestEntityTooLarge\n'
+             'from .sansio import utils as _sansio_utils\n',
+             'from functools import partial\n'
+             'from functools import update_wrapper\n'
+             '\n'
+             'from ._internal import _missing\n'
+             'from .exceptions import ClientDisconnected\n'
+             'from .exceptions import RequestEntityTooLarge\n'
+             'from .sansio import utils as _sansio_utils\n'),
+            ('wsgi.py',
+             '            self.file.close()\n'
+             '\n'
+             '    def seekable(self) -> bool:\n'
+             '        if hasattr(self.file, "seekable"):\n'
+             '            return self.file.seekable()\n'
+             '        if hasattr(self.file, "seek"):\n'
+             '            return True\n'
+             '        return False\n'
+             '\n'
+             '    def seek(self, *args: t.Any) -> None:\n'
+             '        if hasattr(self.file, "seek"):\n'
+             '            self.file.seek(*args)\n'
+             '\n'
+             '    def tell(self) -> int | None:\n'
+             '        if hasattr(self.file, "tell"):\n'
+             '            return self.file.tell()\n'
+             '        return None\n'
+             '\n'
+             '    def __iter__(self) -> FileWrapper:\n',
+             '            self.file.close()\n'
+             '\n'
+             '    def seekable(self) -> bool:\n'
+             '        seekable = getattr(self.file, "seekable", _missing)\n'
+             '        if seekable is not _missing:\n'
+             '            return seekable()  # type: ignore[no-any-return]\n'
+             '        # Older file-like objects only provide seek().\n'
+             '        return getattr(self.file, "seek", _missing) is not _missing\n'
+             '\n'
+             '    def seek(self, *args: t.Any) -> None:\n'
+             '        seek = getattr(self.file, "seek", _missing)\n'
+             '        if seek is not _missing:\n'
+             '            seek(*args)\n'
+             '\n'
+             '    def tell(self) -> int | None:\n'
+             '        tell = getattr(self.file, "tell", _missing)\n'
+             '        if tell is not _missing:\n'
+             '            return tell()  # type: ignore[no-any-return]\n'
+             '        return None\n'
+             '\n'
+             '    def __iter__(self) -> FileWrapper:\n')],
+  'name': 'detect3-filewrapper-getattr-missing-sentinel'},
+ {'edits': [('wsgi.py',
+             '            self.file.close()\n'
+             '\n'
+             '    def seekable(self) -> bool:\n'
+             '        if hasattr(self.file, "seekable"):\n'
+             '            return self.file.seekable()\n'
+             '        if hasattr(self.file, "seek"):\n'
+             '            return True\n'
+             '        return False\n'
+             '\n'
+             '    def seek(self, *args: t.Any) -> None:\n'
+             '        if hasattr(self.file, "seek"):\n',
+             '            self.file.close()\n'
+             '\n'
+             '    def seekable(self) -> bool:\n'
+             '        try:\n'
+             '            seekable = self.file.seekable\n'
+             '        except AttributeError:\n'
+             '            pass\n'
+             '        else:\n'
+             '            return seekable()  # type: ignore[no-any-return]\n'
+             '\n'
+             '        # No ``seekable`` method, being able to seek is good enough.\n'
+             '        try:\n'
+             '            self.file.seek  # noqa: B018\n'
+             '        except AttributeError:\n'
+             '            return False\n'
+             '        return True\n'
+             '\n'
+             '    def seek(self, *args: t.Any) -> None:\n'
+             '        if hasattr(self.file, "seek"):\n')],
+  'name': 'detect3-filewrapper-try-else-attribute-probe'},
+ {'edits': [('wsgi.py',
+             '            self.file.close()\n'
+             '\n'
+             '    def seekable(self) -> bool:\n'
+             '        if hasattr(self.file, "seekable"):\n'
+             '            return self.file.seekable()\n'
+             '        if hasattr(self.file, "seek"):\n'
+             '            return True\n'
+             '        return False\n'
+             '\n'
+             '    def seek(self, *args: t.Any) -> None:\n'
+             '        if hasattr(self.file, "seek"):\n'
+             '            self.file.seek(*args)\n'
+             '\n'
+             '    def tell(self) -> int | None:\n'
+             '        if hasattr(self.file, "tell"):\n'
+             '            return self.file.tell()\n'
+             '        return None\n'
+             '\n'
+             '    def __iter__(self) -> FileWrapper:\n'
+             '        return self\n',
+             '            self.file.close()\n'
+             '\n'
+             '    def seekable(self) -> bool:\n'
+             '        file = self.file\n'
+             '        return file.seekable() if hasattr(file, "seekable") else hasattr(file, "seek")\n'
+             '\n'
+             '    def seek(self, *args: t.Any) -> None:\n'
+             '        file = self.file\n'
+             '        if not hasattr(file, "seek"):\n'
+             '            return\n'
+             '        file.seek(*args)\n'
+             '\n'
+             '    def tell(self) -> int | None:\n'
+             '        file = self.file\n'
+             '        return file.tell() if hasattr(file, "tell") else None\n'
+             '\n'
+             '    def __iter__(self) -> FileWrapper:\n'
+             '        return self\n')],
+  'name': 'detect3-filewrapper-local-file-conditional-expressions'},
+ {'edits': [('wsgi.py',
+             '    """\n'
+             '\n'
+             '    def __init__(self, file: t.IO[bytes], buffer_size: int = 8192) -> None:\n'
+             '        self.file = file\n'
+             '        self.buffer_size = buffer_size\n'
+             '\n'
+             '    def close(self) -> None:\n'
+             '        if hasattr(self.file, "close"):\n'
+             '            self.file.close()\n'
+             '\n'
+             '    def seekable(self) -> bool:\n'
+             '        if hasattr(self.file, "seekable"):\n'
+             '            return self.file.seekable()\n'
+             '        if hasattr(self.file, "seek"):\n'
+             '            return True\n'
+             '        return False\n'
+             '\n'
+             '    def seek(self, *args: t.Any) -> None:\n'
+             '        if hasattr(self.file, "seek"):\n'
+             '            self.file.seek(*args)\n'
+             '\n'
+             '    def tell(self) -> int | None:\n'
+             '        if hasattr(self.file, "tell"):\n'
+             '            return self.file.tell()\n'
+             '        return None\n'
+             '\n'
+             '    def __iter__(self) -> FileWrapper:\n'
+             '        return self\n',
+             '    """\n'
+             '\n'
+             '    def __init__(self, file: t.IO[bytes], buffer_size: int = 8192) -> None:\n'
+             '        self.file, self.buffer_size = file, buffer_size\n'
+             '\n'
+             '    def _file_has(self, name: str) -> bool:\n'
+             '        """Whether the wrapped file provides the given optional method."""\n'
+             '        return hasattr(self.file, name)\n'
+             '\n'
+             '    def close(self) -> None:\n'
+             '        if self._file_has("close"):\n'
+             '            self.file.close()\n'
+             '\n'
+             '    def seekable(self) -> bool:\n'
+             '        if not self._file_has("seekable"):\n'
+             '            # Fall back to checking for a ``seek`` method.\n'
+             '            return self._file_has("seek")\n'
+             '        return self.file.seekable()\n'
+             '\n'
+             '    def seek(self, *args: t.Any) -> None:\n'
+             '        if self._file_has("seek"):\n'
+             '            self.file.seek(*args)\n'
+             '\n'
+             '    def tell(self) -> int | None:\n'
+             '        if not self._file_has("tell"):\n'
+             '            return None\n'
+             '        return self.file.tell()\n'
+             '\n'
+             '    def __iter__(self) -> FileWrapper:\n'
+             '        return self\n')],
+  'name': 'detect3-filewrapper-file-has-helper-method'}]
+MUTANTS += [{'edits': [('http.py',
+             '_token_chars = frozenset(\n'
+             '    "!#$%&\'*+-.0123456789ABCDEFGHIJKLMNOPQRSTUVWXYZ^_`abcdefghijklmnopqrstuvwxyz|~"\n'
+             ')\n'
+             '_etag_re = re.compile(r\'([Ww]/)?(?:"(.*?)"|(.*?))(?:\\s*,\\s*|$)\')\n'
+             '_entity_headers = frozenset(\n'
+             '    [\n'
+             '        "allow",\n',
+             '_token_chars = frozenset(\n'
+             '    "!#$%&\'*+-.0123456789ABCDEFGHIJKLMNOPQRSTUVWXYZ^_`abcdefghijklmnopqrstuvwxyz|~"\n'
+             ')\n'
+             '_etag_re = re.compile(\n'
+             '    r\'(?P<weak>[Ww]/)?(?:"(?P<quoted>.*?)"|(?P<raw>.*?))(?:\\s*,\\s*|$)\'\n'
+             ')\n'
+             '_entity_headers = frozenset(\n'
+             '    [\n'
+             '        "allow",\n'),
+            ('http.py',
+             '        match = _etag_re.match(value, pos)\n'
+             '        if match is None:\n'
+             '            break\n'
+             '        is_weak, quoted, raw = match.groups()\n'
+             '        if raw == "*":\n'
+             '            return ds.ETags(star_tag=True)\n'
+             '        elif quoted:\n'
+             '            raw = quoted\n'
+             '        if is_weak:\n'
+             '            weak.append(raw)\n'
+             '        else:\n'
+             '            strong.append(raw)\n',
+             '        match = _etag_re.match(value, pos)\n'
+             '        if match is None:\n'
+             '            break\n'
+             '        raw = match.group("raw")\n'
+             '        if raw == "*":\n'
+             '            return ds.ETags(star_tag=True)\n'
+             '        quoted = match.group("quoted")\n'
+             '        if quoted:\n'
+             '            raw = quoted\n'
+             '        if not match.group("weak"):\n'
+             '            weak.append(raw)\n'
+             '        else:\n'
+             '            strong.append(raw)\n')],
+  'expect': 'R11.1',
+  'name': 'detect3-named-groups-filing-inverted'},
+ {'edits': [('http.py',
+             '    """\n'
+             '    if not value:\n'
+             '        return ds.ETags()\n'
+             '    strong = []\n'
+             '    weak = []\n'
+             '    end = len(value)\n'
+             '    pos = 0\n'
+             '    while pos < end:\n'
+             '        match = _etag_re.match(value, pos)\n'
+             '        if match is None:\n'
+             '            break\n'
+             '        is_weak, quoted, raw = match.groups()\n'
+             '        if raw == "*":\n'
+             '            return ds.ETags(star_tag=True)\n'
+             '        elif quoted:\n'
+             '            raw = quoted\n'
+             '        if is_weak:\n'
+             '            weak.append(raw)\n'
+             '        else:\n'
+             '            strong.append(raw)\n'
+             '        pos = match.end()\n'
+             '    return ds.ETags(strong, weak)\n'
+             '\n',
+             '    """\n'
+             '    if not value:\n'
+             '        return ds.ETags()\n'
+             '    strong: list[str | None] = []\n'
+             '    weak: list[str | None] = []\n'
+             '    match_at = _etag_re.match\n'
+             '    pos, end = 0, len(value)\n'
+             '    while pos < end and (match := match_at(value, pos)) is not None:\n'
+             '        is_weak, quoted, raw = match.groups()\n'
+             '        if raw == "*":\n'
+             '            return ds.ETags(star_tag=True)\n'
+             '        tags = strong if is_weak else weak\n'
+             '        tags.append(quoted or raw)\n'
+             '        pos = match.end()\n'
+             '    return ds.ETags(strong, weak)\n'
+             '\n')],
+  'expect': 'R11.1',
+  'name': 'detect3-bound-match-selector-inverted'},
+ {'edits': [('datastructures/etag.py',
+             '        weak_etags: cabc.Iterable[str] | None = None,\n'
+             '        star_tag: bool = False,\n'
+             '    ):\n'
+             '        if not star_tag and strong_etags:\n'
+             '            self._strong = frozenset(strong_etags)\n'
+             '        else:\n'
+             '            self._strong = frozenset()\n'
+             '\n'
+             '        self._weak = frozenset(weak_etags or ())\n'
+             '        self.star_tag = star_tag\n'
+             '\n'
+             '    def as_set(self, include_weak: bool = False) -> set[str]:\n'
+             '        """Convert the `ETags` object into a python set.  Per default all the\n',
+             '        weak_etags: cabc.Iterable[str] | None = None,\n'
+             '        star_tag: bool = False,\n'
+             '    ):\n'
+             '        self.star_tag = star_tag\n'
+             '        self._strong = (\n'
+             '            frozenset(strong_etags) if not star_tag and strong_etags else frozenset()\n'
+             '        )\n'
+             '\n'
+             '        if weak_etags:\n'
+             '            self._weak = frozenset(weak_etags)\n'
+             '        else:\n'
+             '            self._weak = frozenset()\n'
+             '\n'
+             '    def as_set(self, include_weak: bool = False) -> set[str]:\n'
+             '        """Convert the `ETags` object into a python set.  Per default all the\n'),
+            ('datastructures/etag.py',
+             '\n'
+             '    def contains_weak(self, etag: str) -> bool:\n'
+             '        """Check if an etag is part of the set including weak and strong tags."""\n'
+             '        return self.is_weak(etag) or self.contains(etag)\n'
+             '\n'
+             '    def contains(self, etag: str) -> bool:\n'
+             '        """Check if an etag is part of the set ignoring weak tags.\n'
+             '        It is also possible to use the ``in`` operator.\n'
+             '        """\n'
+             '        if self.star_tag:\n'
+             '            return True\n'
+             '        return self.is_strong(etag)\n'
+             '\n'
+             '    def contains_raw(self, etag: str) -> bool:\n'
+             '        """When passed a quoted tag it will check if this tag is part of the\n',
+             '\n'
+             '    def contains_weak(self, etag: str) -> bool:\n'
+             '        """Check if an etag is part of the set including weak and strong tags."""\n'
+             '        if weak := self.is_weak(etag):\n'
+             '            return weak\n'
+             '        return self.is_strong(etag)\n'
+             '\n'
+             '    def contains(self, etag: str) -> bool:\n'
+             '        """Check if an etag is part of the set ignoring weak tags.\n'
+             '        It is also possible to use the ``in`` operator.\n'
+             '        """\n'
+             '        return True if self.star_tag else self.is_strong(etag)\n'
+             '\n'
+             '    def contains_raw(self, etag: str) -> bool:\n'
+             '        """When passed a quoted tag it will check if this tag is part of the\n')],
+  'expect': 'R11.1',
+  'name': 'detect3-walrus-contains-weak-forgets-star'},
+ {'edits': [('datastructures/etag.py',
+             '        star_tag: bool = False,\n'
+             '    ):\n'
+             '        if not star_tag and strong_etags:\n'
+             '            self._strong = frozenset(strong_etags)\n'
+             '        else:\n'
+             '            self._strong = frozenset()\n'
+             '\n'
+             '        self._weak = frozenset(weak_etags or ())\n'
+             '        self.star_tag = star_tag\n'
+             '\n'
+             '    def as_set(self, include_weak: bool = False) -> set[str]:\n'
+             '        """Convert the `ETags` object into a python set.  Per default all the\n'
+             '        weak etags are not part of this set."""\n',
+             '        star_tag: bool = False,\n'
+             '    ):\n'
+             '        if not star_tag and strong_etags:\n'
+             '            strong = frozenset(strong_etags)\n'
+             '        else:\n'
+             '            strong = frozenset()\n'
+             '\n'
+             '        weak = frozenset(weak_etags or ())\n'
+             '        #: The stored tags as a ``(strong, weak)`` pair.\n'
+             '        self._tags: tuple[frozenset[str], frozenset[str]] = (strong, weak)\n'
+             '        self.star_tag = star_tag\n'
+             '\n'
+             '    @property\n'
+             '    def _strong(self) -> frozenset[str]:\n'
+             '        return self._tags[0]\n'
+             '\n'
+             '    @property\n'
+             '    def _weak(self) -> frozenset[str]:\n'
+             '        return self._tags[1]\n'
+             '\n'
+             '    def as_set(self, include_weak: bool = False) -> set[str]:\n'
+             '        """Convert the `ETags` object into a python set.  Per default all the\n'
+             '        weak etags are not part of this set."""\n'),
+            ('datastructures/etag.py',
+             '\n'
+             '    def is_weak(self, etag: str) -> bool:\n'
+             '        """Check if an etag is weak."""\n'
+             '        return etag in self._weak\n'
+             '\n'
+             '    def is_strong(self, etag: str) -> bool:\n'
+             '        """Check if an etag is strong."""\n'
+             '        return etag in self._strong\n'
+             '\n'
+             '    def contains_weak(self, etag: str) -> bool:\n'
+             '        """Check if an etag is part of the set including weak and strong tags."""\n',
+             '\n'
+             '    def is_weak(self, etag: str) -> bool:\n'
+             '        """Check if an etag is weak."""\n'
+             '        weak, _ = self._tags\n'
+             '        return etag in weak\n'
+             '\n'
+             '    def is_strong(self, etag: str) -> bool:\n'
+             '        """Check if an etag is strong."""\n'
+             '        strong, _ = self._tags\n'
+             '        return etag in strong\n'
+             '\n'
+             '    def contains_weak(self, etag: str) -> bool:\n'
+             '        """Check if an etag is part of the set including weak and strong tags."""\n')],
+  'expect': 'R11.1',
+  'name': 'detect3-pair-representation-is-weak-reads-strong'},
+ {'edits': [('http.py',
+             '_token_chars = frozenset(\n'
+             '    "!#$%&\'*+-.0123456789ABCDEFGHIJKLMNOPQRSTUVWXYZ^_`abcdefghijklmnopqrstuvwxyz|~"\n'
+             ')\n'
+             '_etag_re = re.compile(r\'([Ww]/)?(?:"(.*?)"|(.*?))(?:\\s*,\\s*|$)\')\n'
+             '_entity_headers = frozenset(\n'
+             '    [\n'
+             '        "allow",\n',
+             '_token_chars = frozenset(\n'
+             '    "!#$%&\'*+-.0123456789ABCDEFGHIJKLMNOPQRSTUVWXYZ^_`abcdefghijklmnopqrstuvwxyz|~"\n'
+             ')\n'
+             '_etag_weak_prefix = r"(?:W|w)/"\n'
+             '_etag_quoted = r\'"(.*?)"\'\n'
+             '_etag_bare = r"(.*?)"\n'
+             '_etag_list_sep = r",\\s*"\n'
+             '_etag_re = re.compile(\n'
+             '    f"({_etag_weak_prefix})?"\n'
+             '    f"(?:{_etag_quoted}|{_etag_bare})"\n'
+             '    f"(?:{_etag_list_sep}|$)"\n'
+             ')\n'
+             '_entity_headers = frozenset(\n'
+             '    [\n'
+             '        "allow",\n')],
+  'expect': 'R11.10',
+  'name': 'detect3-fstring-pieces-separator-no-leading-blank'},
+ {'edits': [('http.py',
+             '    return etag, weak\n\n\ndef parse_etags(value: str | None) -> ds.ETags:\n    """Parse an etag header.\n\n',
+             '    return etag, weak\n'
+             '\n'
+             '\n'
+             'def _iter_etag_items(\n'
+             '    value: str,\n'
+             ') -> t.Iterator[tuple[str | None, str | None, str | None]]:\n'
+             '    """Yield ``(weak_marker, quoted, raw)`` for each item of an etag list,\n'
+             "    stopping at the first position that can't be parsed.\n"
+             '    """\n'
+             '    end = len(value)\n'
+             '    pos = 0\n'
+             '    while pos < end:\n'
+             '        match = _etag_re.match(value, pos)\n'
+             '        if match is None:\n'
+             '            return\n'
+             '        yield match.groups()\n'
+             '        pos = end\n'
+             '\n'
+             '\n'
+             'def parse_etags(value: str | None) -> ds.ETags:\n'
+             '    """Parse an etag header.\n'
+             '\n'),
+            ('http.py',
+             '        return ds.ETags()\n'
+             '    strong = []\n'
+             '    weak = []\n'
+             '    end = len(value)\n'
+             '    pos = 0\n'
+             '    while pos < end:\n'
+             '        match = _etag_re.match(value, pos)\n'
+             '        if match is None:\n'
+             '            break\n'
+             '        is_weak, quoted, raw = match.groups()\n'
+             '        if raw == "*":\n'
+             '            return ds.ETags(star_tag=True)\n'
+             '        elif quoted:\n',
+             '        return ds.ETags()\n'
+             '    strong = []\n'
+             '    weak = []\n'
+             '    for is_weak, quoted, raw in _iter_etag_items(value):\n'
+             '        if raw == "*":\n'
+             '            return ds.ETags(star_tag=True)\n'
+             '        elif quoted:\n'),
+            ('http.py',
+             '            weak.append(raw)\n        else:\n            strong.append(raw)\n        pos = match.end()\n    return ds.ETags(strong, weak)\n\n\n',
+             '            weak.append(raw)\n        else:\n            strong.append(raw)\n    return ds.ETags(strong, weak)\n\n\n')],
+  'expect': 'R11.10',
+  'name': 'detect3-generator-of-groups-stops-after-first'},
+ {'edits': [('wsgi.py',
+             'from functools import partial\n'
+             'from functools import update_wrapper\n'
+             '\n'
+             'from .exceptions import ClientDisconnected\n'
+             'from .exceptions import RequestEntityTooLarge\n'
+             'from .sansio import utils as _sansio_utils\n',
+             'from functools import partial\n'
+             'from functools import update_wrapper\n'
+             '\n'
+             'from ._internal import _missing\n'
+             'from .exceptions import ClientDisconnected\n'
+             'from .exceptions import RequestEntityTooLarge\n'
+             'from .sansio import utils as _sansio_utils\n'),
+            ('wsgi.py',
+             '            self.file.close()\n'
+             '\n'
+             '    def seekable(self) -> bool:\n'
+             '        if hasattr(self.file, "seekable"):\n'
+             '            return self.file.seekable()\n'
+             '        if hasattr(self.file, "seek"):\n'
+             '            return True\n'
+             '        return False\n'
+             '\n'
+             '    def seek(self, *args: t.Any) -> None:\n'
+             '        if hasattr(self.file, "seek"):\n'
+             '            self.file.seek(*args)\n'
+             '\n'
+             '    def tell(self) -> int | None:\n'
+             '        if hasattr(self.file, "tell"):\n'
+             '            return self.file.tell()\n'
+             '        return None\n'
+             '\n'
+             '    def __iter__(self) -> FileWrapper:\n',
+             '            self.file.close()\n'
+             '\n'
+             '    def seekable(self) -> bool:\n'
+             '        seekable = getattr(self.file, "seekable", _missing)\n'
+             '        if seekable is not _missing:\n'
+             '            return True\n'
+             '        # Older file-like objects only provide seek().\n'
+             '        return getattr(self.file, "seek", _missing) is not _missing\n'
+             '\n'
+             '    def seek(self, *args: t.Any) -> None:\n'
+             '        seek = getattr(self.file, "seek", _missing)\n'
+             '        if seek is not _missing:\n'
+             '            seek(*args)\n'
+             '\n'
+             '    def tell(self) -> int | None:\n'
+             '        tell = getattr(self.file, "tell", _missing)\n'
+             '        if tell is not _missing:\n'
+             '            return tell()  # type: ignore[no-any-return]\n'
+             '        return None\n'
+             '\n'
+             '    def __iter__(self) -> FileWrapper:\n')],
+  'expect': 'R11.11',
+  'name': 'detect3-missing-sentinel-presence-not-answer'}]
+TWINS += [
+    {"name": "detect3-filewrapper-object-sentinel", "edits": [
+        (WS, "class FileWrapper:\n", "_no_attr = object()\n\n\nclass FileWrapper:\n"),
+        (WS, _FW_SEEKABLE, '    def seekable(self) -> bool:\n        probe = getattr(self.file, "seekable", _no_attr)\n        if probe is _no_attr:\n            return hasattr(self.file, "seek")\n        return probe()\n'),
+    ]},
+]
